@@ -43,6 +43,15 @@ func main() {
 		fmt.Fprintf(os.Stderr, "gntranslate: %v\n", err)
 		os.Exit(1)
 	}
+	// C15: codec tables (done before the chdir below; translateCodec takes the repository root)
+	codecFiles, err := translateCodec(*repo)
+	if err != nil {
+		fmt.Fprintf(os.Stderr, "gntranslate: %v\n", err)
+		os.Exit(1)
+	}
+	for name, content := range codecFiles {
+		files[name] = content
+	}
 	// C16 / C17: type-checked passes over neat/genetics and everything it imports from the repository
 	// the source importer resolves third-party imports through `go list`, which must run inside the repository's module
 	// (never let it touch go.mod / go.sum there)
